@@ -23,7 +23,7 @@ def assign(heights, subs, grps, nrow, add, new_page, conts=None):
         if conts is not None:
             for r, c in zip(rows, conts):
                 r["continuation_header_rows"] = c
-        out = PBC._assign_pages(NS(pagination=NS(nrow=nrow)), MetaFrame(rows), add, new_page)
+        out = PBC._assign_pages(NS.of(PBC, pagination=NS(nrow=nrow)), MetaFrame(rows), add, new_page)
         return [r["page"] for r in out.to_dicts()]
     finally:
         core.pl = saved
@@ -94,7 +94,7 @@ def contiguous_ok(pages):
 
 
 def calc_ns(nrow):
-    calc = NS(pagination=NS(nrow=nrow))
+    calc = NS.of(PBC, pagination=NS(nrow=nrow))
     calc._calculate_header_rows = lambda *a, **k: PBC._calculate_header_rows(calc, *a, **k)
     calc._assign_pages = lambda *a, **k: PBC._assign_pages(calc, *a, **k)
     return calc
